@@ -1357,6 +1357,8 @@ def run(tier, only=None):
     w10(rep)
     w11(rep)
     w12(rep, f_foam)
+    from . import c19_float
+    c19_float.sentinels(rep, "W13")      # the float literals of a saved unit: reserved exponents of the portable form
     f_sefo = common.extract("sefo.c", all_trees=True)
     w6(rep, f_sefo, widths)
     rep.assumptions += ["W7: for Lex/RElt/RRElt/EElt/IRElt/TRElt nodes the letter i of argf marks exactly the fields written with the "
